@@ -499,20 +499,27 @@ class Check:
 
 
 def setup():
+    """Build everything that can be built (make -k): a property whose own files do not
+    compile is reported by its own check, it must not take the other checks down."""
     t0 = time.time()
-    rc, out = coq_make(None, timeout=6000)
+    with Lock("coq"):
+        write_coqproject()
+        sh(["coq_makefile", "-f", "_CoqProject", "-o", "Makefile"], cwd=COQ, timeout=120)
+        rc, out, _ = sh(["make", "-k", "-j%d" % NCPU], cwd=COQ, timeout=12000)
     print(out[-3000:])
     if rc != 0:
-        print("coq build failed")
-        return 1
+        bad = sorted(set(re.findall(r'File "\./([^"]+)", line', out)))
+        print("coq build: some files failed (their checks will report it):", bad)
     import props
+    failed = []
     for pid in sorted(props.PROPS):
         if not props.PROPS[pid].get("harness", True):
             continue
         rc, out, wall = build_harness(pid, race=props.PROPS[pid].get("race", False))
         if rc != 0:
-            print(out[-2000:])
-            print("harness build failed for", pid)
-            return 1
+            print(out[-1500:])
+            failed.append(pid)
+    if failed:
+        print("harness build failed for", failed, "(their checks will report it)")
     print("setup done in %.1fs" % (time.time() - t0))
     return 0
